@@ -184,6 +184,16 @@ class RandomChooser(object):
         return enabled[self.rng.randrange(len(enabled))]
 
 
+def budget_scale():
+    """Factor applied to the wall-clock budgets of the scheduled families (VERIF_SCHED_BUDGET_SCALE, default 1).  The
+    budgets only cut what lies beyond each family's fixed minimum exploration."""
+    import os
+    try:
+        return float(os.environ.get("VERIF_SCHED_BUDGET_SCALE", "1"))
+    except ValueError:
+        return 1.0
+
+
 def _order(enabled, prev):
     return ([prev] if prev in enabled else []) + [t for t in enabled if t != prev]
 
@@ -278,7 +288,8 @@ class Result(object):
         self.blocked = []  # per decision: parked threads that were not enabled (waiting for a lock / queue / join)
         self.returns = {}  # tid -> value returned by the worker callable
         self.errors = {}  # tid -> exception raised by the worker callable
-        self.deadlock = None  # None or {tid: (file, line)} of the parked, disabled threads
+        self.deadlock = None  # None or {tid: (file, line)} of the parked, disabled threads (or of threads that hang, see `hang`)
+        self.hang = None  # None or dict(threads, seconds, step, last): threads neither parked nor finished when time was up
         self.nthreads = 0
         self.parents = {}  # dynamically started thread -> (parent tid, step index)
         self.names = {}  # tid -> threading.Thread.name (workers: "sched-<run>-<tid>")
@@ -303,6 +314,20 @@ _ACTIVE = None  # the scheduler whose run is in progress (one at a time per proc
 _ACTIVE_GUARD = threading.Lock()
 _ORIG_START = threading.Thread.start
 _ORIG_JOIN = threading.Thread.join
+_ORIG_EVENT_WAIT = threading.Event.wait
+_IN_START = threading.local()
+
+
+class _Hang(Exception):
+    pass
+
+
+def _patched_event_wait(event, timeout=None):
+    s = _ACTIVE
+    if s is not None and not getattr(_IN_START, "on", False) and not s._free and s._tid_of_current() is not None:
+        # a scheduled thread waiting for an Event: a gate that is enabled once the event is set
+        s.pseudo_gate("<event-wait>", event.is_set)
+    return _ORIG_EVENT_WAIT(event, timeout)
 
 
 def _patched_start(thread):
@@ -312,7 +337,11 @@ def _patched_start(thread):
     me = s._tid_of_current()
     if me is None:
         return _ORIG_START(thread)
-    return s._start_child(me, thread)
+    _IN_START.on = True  # Thread.start waits for the child's `_started` event: not a gate
+    try:
+        return s._start_child(me, thread)
+    finally:
+        _IN_START.on = False
 
 
 def _patched_join(thread, timeout=None):
@@ -326,11 +355,16 @@ def _patched_join(thread, timeout=None):
 
 
 class Scheduler(object):
-    def __init__(self, targets, rules=(), timeout=20.0, max_steps=100000, only_funcs=None):
+    def __init__(self, targets, rules=(), timeout=20.0, max_steps=100000, only_funcs=None, hang="observation"):
         """`only_funcs`: if given, only frames whose function name is in this set are gated
         (everything else in the target files runs as part of the surrounding step)."""
         self.targets = set(str(t) for t in targets)
         self.only_funcs = None if only_funcs is None else set(only_funcs)
+        # "observation": a thread that is neither parked nor finished when the time is up is stuck inside the code under
+        # test (blocked on something that is not gated, or looping): the run ends with `result.hang` / `result.deadlock` set
+        # and the schedule so far, so that the caller's oracle reports it with a replay.  "infra": raise InfraError instead.
+        self.hang = hang
+        self._ungated = set()
         self.rules = list(rules)
         self.timeout = timeout
         self.max_steps = max_steps
@@ -353,7 +387,7 @@ class Scheduler(object):
         targets = self.targets
 
         def local(frame, event, arg):
-            if event == "line" and not self._free:
+            if event == "line" and not self._free and tid not in self._ungated:
                 code = frame.f_code
                 self._park(tid, _Gate(code.co_filename, frame.f_lineno, code.co_name, frame))
             return local
@@ -363,7 +397,8 @@ class Scheduler(object):
         def glob(frame, event, arg):
             if frame.f_code.co_filename in targets and (only is None or frame.f_code.co_name in only):
                 # not a gate: which target-file function was entered during which step
-                self._result.calls.append((len(self._result.trace), tid, frame.f_code.co_name))
+                if tid not in self._ungated:
+                    self._result.calls.append((len(self._result.trace), tid, frame.f_code.co_name))
                 return local
             return None
 
@@ -390,10 +425,27 @@ class Scheduler(object):
             self._state[tid] = "running"
         gate.frame = None
 
+    def ungated(self):
+        """Context manager for the calling scheduled thread: what it does inside is not gated (it runs as part of the
+        surrounding step, or of the thread's start-up) - for set-up work that must happen *in* a particular thread."""
+        sched_self = self
+
+        class _Ungated(object):
+            def __enter__(self_inner):
+                self_inner.tid = sched_self._tid_of_current()
+                if self_inner.tid is not None:
+                    sched_self._ungated.add(self_inner.tid)
+
+            def __exit__(self_inner, *a):
+                sched_self._ungated.discard(self_inner.tid)
+                return False
+
+        return _Ungated()
+
     def pseudo_gate(self, label, enabled=None):
         """Explicit gate for the calling scheduled thread (no-op for other threads)."""
         tid = self._tid_of_current()
-        if tid is None or self._free:
+        if tid is None or self._free or tid in self._ungated:
             return
         self._park(tid, _Gate(label, 0, label, None, enabled_fn=enabled, label=label))
 
@@ -437,6 +489,11 @@ class Scheduler(object):
                 busy = sorted(t for t, st in self._state.items() if st == "running")
                 self._free = True
                 cv.notify_all()
+                if self.hang == "observation":
+                    what = "<still running %.0fs after its last gate: blocked or looping in ungated code>" % self.timeout
+                    self._result.hang = dict(threads=busy, seconds=self.timeout, step=len(self._result.trace), last=self._result.lines[-5:])
+                    self._result.deadlock = {t: (what, 0) for t in busy}
+                    raise _Hang()
                 raise InfraError("scheduler timeout after %.0fs (run %d, step %d): threads %s neither parked nor finished; last steps %s"
                                  % (self.timeout, self.runs, len(self._result.trace), busy, self._result.lines[-5:]))
             cv.wait(min(left, 1.0))
@@ -461,6 +518,7 @@ class Scheduler(object):
         self._state, self._parked, self._threads = {}, {}, {}
         self._idents, self._by_thread = {}, {}
         self._turn, self._free = None, False
+        self._ungated = set()
         self._next_tid = len(workers)
         for r in self.rules:
             r.reset()
@@ -469,8 +527,10 @@ class Scheduler(object):
         _ACTIVE = self
         threading.Thread.start = _patched_start
         threading.Thread.join = _patched_join
+        threading.Event.wait = _patched_event_wait
         try:
             with self._cv:
+              try:
                 # start one at a time: everything a worker does before its first gate runs alone
                 for tid, body in enumerate(workers):
                     th = threading.Thread(target=self._thread_main, args=(tid, body), daemon=True,
@@ -504,12 +564,14 @@ class Scheduler(object):
                     prev = t
                     self._turn = t
                     self._cv.notify_all()
-                # let go of whatever is still parked (deadlock case) and collect the threads
-                self._free = True
-                self._cv.notify_all()
+              except _Hang:
+                pass
+              # let go of whatever is still parked (deadlock / hang case) and collect the threads
+              self._free = True
+              self._cv.notify_all()
             leaked = []
             for tid, th in sorted(self._threads.items()):
-                _ORIG_JOIN(th, 0.5 if res.deadlock else max(0.5, deadline - time.monotonic()))
+                _ORIG_JOIN(th, 0.5 if res.deadlock else max(5.0, deadline - time.monotonic()))
                 if th.is_alive():
                     leaked.append(tid)
             if leaked and not res.deadlock:
@@ -522,6 +584,7 @@ class Scheduler(object):
             self._free = True
             threading.Thread.start = _ORIG_START
             threading.Thread.join = _ORIG_JOIN
+            threading.Event.wait = _ORIG_EVENT_WAIT
             _ACTIVE = None
             for r in self.rules:
                 r.reset()
